@@ -63,7 +63,7 @@ type c11conn struct {
 }
 
 type c11step struct {
-	kind    int // 0 plain command, 1 forged DNS answer, 2 forged HTTP proxy answer
+	kind    int // 0 plain command, 1 forged DNS answer, 2 forged HTTP proxy answer, 3 overlapped pair (storage stall)
 	sender  int
 	cmd     int
 	target  int
@@ -72,7 +72,7 @@ type c11step struct {
 	ptype   int // 0 JsonCommand, 1 CommandResp
 	variant int
 	n1, n2  int
-	fault   int // 0 none, k>0: the k-th store operation after the send fails
+	fault   int  // 0 none, k>0: the k-th store operation after the send fails
 	churn   bool // the sender's transport is closed right after the request was written
 }
 
@@ -93,6 +93,11 @@ type c11run struct {
 	hist  []string
 	seq   int
 	nontr bool
+	// storage stall: the stallAt-th store operation of the run sleeps stallFor in its calling task
+	stOps    int
+	stallAt  int
+	stallFor time.Duration
+	stalled  bool
 }
 
 type c11raw interface {
@@ -151,10 +156,10 @@ func init() {
 		ID:    "C11",
 		Level: "exploration",
 		Rule: "each run wires a real node with the command executor and all four handler sets, registers clients A, B, S (online) and O (offline) over the wire, opens U0 (no handshake) and U1 (challenge for A requested, never answered), creates a per-run drawn subset of objects through the real services (mappings A>O, B>O, socks A>B, a code-activated mapping A>B, unactivated codes of A and B, HTTP domain mappings of A and B) and then sends 4-10 drawn commands. " +
-			"The command type is drawn from the table read from the live registry plus the special-cased types of handleCommandPacket plus a few unregistered types; sender in {U0,U1,A,B,S}; target object in {A's, B's, shared, nonexistent}; identity fields (SenderId/ReceiverId/Token and client_id-like body fields) in {absent, victim's}; packet type in {JsonCommand, CommandResp}; optionally one injected store error, optionally the sender's transport is closed right after the request was written. Two composite steps answer a pending DNS forward / HTTP proxy request from a drawn connection. " +
+			"The command type is drawn from the table read from the live registry plus the special-cased types of handleCommandPacket plus a few unregistered types; sender in {U0,U1,A,B,S}; target object in {A's, B's, shared, nonexistent}; identity fields (SenderId/ReceiverId/Token and client_id-like body fields) in {absent, victim's}; packet type in {JsonCommand, CommandResp}; optionally one injected store error, optionally the sender's transport is closed right after the request was written. Two composite steps answer a pending DNS forward / HTTP proxy request from a drawn connection. A fourth kind of step overlaps two commands of different connections: a storage operation inside the first command's processing is held for 3 s, 47 s or 95 s of simulated time (shorter and longer than the executor's command timeout) and the second command is sent 0.2 s, 33 s or 61 s after the first, so that handlers outlive their Execute call while another connection's command is created and answered. Every command carries data only it supplies (description, new subdomain, addresses): a stored record with that data must name the identity of the connection the command arrived on, and neither an answer with another connection's command id nor another command's own data may arrive on a transport (unless a record naming the receiver holds it). " +
 			"Around every command the whole store and every transport's inbox are diffed. Non-trivial: at least one command that names an existing harness-created object was sent by an unauthenticated connection, by a non-party, or with forged identity fields and was written to the server, or a forged answer was injected while the server really had the request pending at B. Distinct = distinct schedule hashes; w.State counts (command, sender role, target ownership, forge, packet type, outcome) cells.",
 		Real: []string{"internal/command CommandRegistry/CommandExecutor and the HTTP-domain handlers", "internal/app/server connection-code, mapping, config and HTTP-domain command handler sets, ServerAuthHandler", "internal/protocol/session SessionManager: handleCommandPacket special cases (SOCKS5, DNS resolve/query, traffic report, disconnect, HTTP proxy response), client registry, BaseAdapter read loop", "internal/cloud services/repos (port mappings, connection codes, HTTP domain mappings, clients) on the real memory storage backend", "internal/stream StreamProcessor on both ends"},
-		Stub: []string{"transport: simnet links", "peers: scripted clients (they never answer forwarded requests unless the step says so)", "no second node (cross-node DNS/HTTP forwarding is not reachable)"},
+		Stub: []string{"transport: simnet links", "peers: scripted clients (they never answer forwarded requests unless the step says so)", "slow storage: simstore Sync hook sleeping in the calling task", "no second node (cross-node DNS/HTTP forwarding is not reachable)"},
 		Assumptions: []string{
 			"identity of a transport = what the handshake replies on that transport proved (issued id on first connect); U1's unanswered challenge proves nothing",
 			"a connection code is a bearer secret: an authenticated client presenting an unactivated code becomes a party to it by activating it",
@@ -188,6 +193,14 @@ func c11Run(w *simrt.World, tier string) {
 	}
 	defer node.Close()
 	r := &c11run{w: w, node: node, mem: mem, st: st, ids: map[string]int64{}}
+	st.Sync = func() {
+		r.stOps++
+		if r.stallAt > 0 && r.stOps >= r.stallAt && !r.stalled {
+			r.stalled = true
+			w.Fault("store.stall")
+			w.Sleep(r.stallFor)
+		}
+	}
 
 	// ---- command table: live registry + special cases + unregistered types
 	var table []packet.CommandType
@@ -230,6 +243,8 @@ func c11Run(w *simrt.World, tier string) {
 			s.kind = 1
 		case k == 11:
 			s.kind = 2
+		case k == 8 || k == 9:
+			s.kind = 3 // overlapped with the next step's command
 		}
 		s.sender = c.Intn(5, "sender")
 		// registry handlers and special cases get most of the weight; the tail are unregistered types
@@ -335,7 +350,12 @@ func c11Run(w *simrt.World, tier string) {
 	r.drain()
 
 	// ---- run the plan
+	skip := false
 	for i := range plan {
+		if skip {
+			skip = false // consumed as the second command of an overlapped pair
+			continue
+		}
 		s := &plan[i]
 		snd := r.conns[s.sender]
 		for _, cc := range r.conns {
@@ -357,11 +377,27 @@ func c11Run(w *simrt.World, tier string) {
 				break
 			}
 		}
-		switch s.kind {
-		case 1:
+		switch {
+		case s.kind == 1:
 			r.forgedDNS(s, snd, table)
-		case 2:
+		case s.kind == 2:
 			r.forgedHTTP(s, snd)
+		case s.kind == 3 && i+1 < len(plan):
+			// the next step's command is sent by another open transport while this one is being processed
+			s2 := &plan[i+1]
+			skip = true
+			var y *c11conn
+			for k := 0; k < len(r.conns); k++ {
+				if cc := r.conns[(s2.sender+k)%len(r.conns)]; cc != snd && !cc.closed {
+					y = cc
+					break
+				}
+			}
+			if y == nil {
+				r.command(s, snd, table[s.cmd%len(table)])
+				break
+			}
+			r.overlapped(s, s2, snd, y, table[s.cmd%len(table)], table[s2.cmd%len(table)])
 		default:
 			r.command(s, snd, table[s.cmd%len(table)])
 		}
@@ -590,7 +626,9 @@ func c11delta(a, b string) string {
 
 type c11change struct {
 	key, how string
-	parties  map[int64]bool
+	text     string         // key + the part of the value that changed
+	parties  map[int64]bool // parties of the known objects and the clients named in text
+	clients  map[int64]bool // clients named in text
 	names    []string
 }
 
@@ -616,7 +654,7 @@ func (r *c11run) diff(a, b *c11snap) []c11change {
 		if ina && inb && va == vb {
 			continue
 		}
-		ch := c11change{key: k, parties: map[int64]bool{}}
+		ch := c11change{key: k, parties: map[int64]bool{}, clients: map[int64]bool{}}
 		var text string
 		switch {
 		case ina && !inb:
@@ -645,10 +683,12 @@ func (r *c11run) diff(a, b *c11snap) []c11change {
 		}
 		for _, n := range []string{"A", "B", "S", "O"} {
 			if c11has(text, strconv.FormatInt(r.ids[n], 10)) {
+				ch.clients[r.ids[n]] = true
 				ch.parties[r.ids[n]] = true
 				ch.names = append(ch.names, "client."+n)
 			}
 		}
+		ch.text = text
 		out = append(out, ch)
 	}
 	return out
@@ -807,21 +847,54 @@ func (r *c11run) body(t packet.CommandType, s *c11step, snd *c11conn) (map[strin
 	return b, tgt
 }
 
-func (r *c11run) command(s *c11step, snd *c11conn, t packet.CommandType) {
-	w := r.w
+// c11sent is one command written to the server inside an observation window.
+type c11sent struct {
+	s       *c11step
+	snd     *c11conn
+	t       packet.CommandType
+	name    string
+	ptn     string
+	forged  string
+	role    string
+	cp      *packet.CommandPacket
+	pt      packet.Type
+	tgt     *c11obj
+	reqText string
+	markers []string // strings only this command supplied (description, new subdomain, addresses)
+	werr    error
+	outcome string
+	holdsFn func(o *c11obj) bool
+}
+
+// prepare builds the packet of one plain command.
+func (r *c11run) prepare(s *c11step, snd *c11conn, t packet.CommandType) *c11sent {
 	r.seq++
-	name := c11name(t)
+	c := &c11sent{s: s, snd: snd, t: t, name: c11name(t)}
 	b, tgt := r.body(t, s, snd)
+	c.tgt = tgt
+	// data only this command supplies: where it ends up tells whose command the server thought it was
+	mark := fmt.Sprintf("c11mark%dq", r.seq)
+	if _, ok := b["description"]; ok || len(b) > 0 && !c11isDNS(t) && t != packet.SOCKS5TunnelRequestCmd {
+		b["description"] = mark
+		c.markers = append(c.markers, mark)
+	}
+	for _, f := range []string{"target_address", "listen_address", "target_url"} {
+		if v, ok := b[f].(string); ok {
+			c.markers = append(c.markers, strings.TrimPrefix(strings.TrimPrefix(v, "tcp://"), "http://"))
+		}
+	}
+	if sub, ok := b["subdomain"].(string); ok && (strings.HasPrefix(sub, "c11n") || strings.HasPrefix(sub, "c11free")) {
+		c.markers = append(c.markers, sub) // a name this command made up
+	}
 	victim := r.victimID(s)
 	vs := strconv.FormatInt(victim, 10)
 	cp := &packet.CommandPacket{CommandType: t, CommandId: fmt.Sprintf("c11-%d", r.seq)}
-	forged := ""
 	if s.forge&1 != 0 {
 		cp.SenderId, cp.ReceiverId = vs, vs
 		if s.variant%2 == 1 {
 			cp.Token = vs
 		}
-		forged += "+fields"
+		c.forged += "+fields"
 	}
 	if s.forge&2 != 0 {
 		for _, f := range []string{"client_id", "listen_client_id", "sender_id", "source_client_id", "owner_client_id", "user_id"} {
@@ -829,36 +902,44 @@ func (r *c11run) command(s *c11step, snd *c11conn, t packet.CommandType) {
 				b[f] = victim
 			}
 		}
-		forged += "+body"
+		c.forged += "+body"
 	}
 	if victim == snd.id {
-		forged = "" // claiming one's own identity is honest
+		c.forged = "" // claiming one's own identity is honest
 	}
 	bb, _ := json.Marshal(b)
 	cp.CommandBody = string(bb)
 	if len(b) == 0 && s.variant == 2 {
 		cp.CommandBody = ""
 	}
-	pt := packet.JsonCommand
-	ptn := "json"
+	c.cp = cp
+	c.pt, c.ptn = packet.JsonCommand, "json"
 	if s.ptype == 1 {
-		pt, ptn = packet.CommandResp, "resp"
+		c.pt, c.ptn = packet.CommandResp, "resp"
 	}
-	reqText := cp.CommandBody + " " + cp.SenderId + " " + cp.Token
+	c.reqText = cp.CommandBody + " " + cp.SenderId + " " + cp.Token
 	if sub, ok := b["subdomain"].(string); ok {
 		// the full domain is what the sender asked about, spelled in two fields
-		reqText += " " + sub + "." + fmt.Sprint(b["base_domain"])
+		c.reqText += " " + sub + "." + fmt.Sprint(b["base_domain"])
 	}
 	// a connection code is a bearer secret: an authenticated sender that presents it holds it
-	holds := func(o *c11obj) bool {
-		return snd.id != 0 && o.kind == "code" && c11has(reqText, o.id)
+	c.holdsFn = func(o *c11obj) bool {
+		return snd.id != 0 && o.kind == "code" && c11has(c.reqText, o.id)
 	}
-	role := c11role(snd, tgt)
-	own := "none"
-	if tgt != nil {
-		own = tgt.name
-	}
+	c.role = c11role(snd, tgt)
+	return c
+}
 
+func (c *c11sent) send() {
+	_, c.werr = c.snd.cl.SP.WritePacket(&packet.TransferPacket{PacketType: c.pt, CommandPacket: c.cp}, false, 0)
+}
+
+func c11isDNS(t packet.CommandType) bool { return t == packet.DNSResolve || t == packet.DNSQuery }
+
+// command: one command alone in its window.
+func (r *c11run) command(s *c11step, snd *c11conn, t packet.CommandType) {
+	w := r.w
+	c := r.prepare(s, snd, t)
 	r.drain()
 	r.clearInboxes()
 	before := r.snapshot()
@@ -868,121 +949,280 @@ func (r *c11run) command(s *c11step, snd *c11conn, t packet.CommandType) {
 		failAt = ops + s.fault
 		r.st.FailAt = failAt
 	}
-	_, werr := snd.cl.SP.WritePacket(&packet.TransferPacket{PacketType: pt, CommandPacket: cp}, false, 0)
-	if s.churn && snd.name != "S" && werr == nil {
+	c.send()
+	if s.churn && snd.name != "S" && c.werr == nil {
 		// identity churn: the transport goes away while the handler goroutine may still be running
 		snd.cl.Close()
 		snd.closed = true
 		w.Fault("sender.closed-after-send")
 	}
 	settle := 457 * time.Millisecond
-	if t == packet.DNSResolve || t == packet.DNSQuery {
-		settle = 6*time.Second + 457*time.Millisecond
+	if c11isDNS(t) {
+		settle += 6 * time.Second
 	}
 	w.Sleep(settle)
 	r.st.FailAt = 0
 	r.drain()
 	after := r.snapshot()
-	changes := r.diff(before, after)
 	if s.fault > 0 {
 		if ops, _ := r.st.Ops(); ops >= failAt {
 			w.Probe("fault.store-error-inside-command")
 		}
 	}
+	r.judge([]*c11sent{c}, before, after, "")
+}
 
-	replies := snd.inbox
-	outcome := "silent"
-	for _, p := range replies {
-		if ok, has := c11success(p); has {
-			if ok {
-				outcome = "ok"
-			} else if outcome != "ok" {
-				outcome = "refused"
-			}
+// overlapped: the first command's handler is held inside a storage operation
+// (for less or for more than any command timeout) and a second connection's
+// command is processed at a drawn point of that interval. Each command must
+// still be executed, answered and recorded as its own connection's.
+func (r *c11run) overlapped(s, s2 *c11step, x, y *c11conn, tx, ty packet.CommandType) {
+	w := r.w
+	stall := []time.Duration{3*time.Second + 113*time.Millisecond, 47*time.Second + 113*time.Millisecond, 95*time.Second + 113*time.Millisecond}[s.n1%3]
+	delay := []time.Duration{211 * time.Millisecond, 33*time.Second + 211*time.Millisecond, 61*time.Second + 211*time.Millisecond}[s.n2%3]
+	cx := r.prepare(s, x, tx)
+	cy := r.prepare(s2, y, ty)
+	r.drain()
+	r.clearInboxes()
+	before := r.snapshot()
+	r.stallAt, r.stallFor, r.stalled = r.stOps+1+s.variant%3, stall, false
+	cx.send()
+	w.Sleep(delay)
+	cy.send()
+	settle := stall + 31*time.Second + 457*time.Millisecond
+	if c11isDNS(tx) || c11isDNS(ty) {
+		settle += 6 * time.Second
+	}
+	w.Sleep(settle)
+	r.stallAt = 0
+	r.drain()
+	after := r.snapshot()
+	how := "overlap"
+	if r.stalled {
+		how = fmt.Sprintf("overlap[first command's handler held %v in storage, second sent after %v]", stall.Truncate(time.Second), delay.Truncate(time.Second))
+		w.Probe(fmt.Sprintf("overlap.stalled.%ds.second-after-%ds", int(stall.Seconds()), int(delay.Seconds())))
+		r.nontr = true
+	} else {
+		w.Probe("overlap.no-store-op-to-stall")
+	}
+	r.judge([]*c11sent{cx, cy}, before, after, how)
+}
+
+// judge applies the oracle to one observation window in which the given
+// commands (of different connections when there are two) were processed.
+func (r *c11run) judge(cmds []*c11sent, before, after *c11snap, how string) {
+	w := r.w
+	changes := r.diff(before, after)
+	byID := map[string]*c11sent{}
+	sender := map[*c11conn]*c11sent{}
+	allUnauth := true
+	for _, c := range cmds {
+		byID[c.cp.CommandId] = c
+		sender[c.snd] = c
+		if c.snd.id != 0 {
+			allUnauth = false
 		}
 	}
-	if werr != nil {
-		outcome = "write-failed"
+	single := len(cmds) == 1
+	// outcome per command: what came back on its own transport under its own command id
+	for _, c := range cmds {
+		c.outcome = "silent"
+		for _, p := range c.snd.inbox {
+			if p.CommandPacket != nil && p.CommandPacket.CommandId != "" && p.CommandPacket.CommandId != c.cp.CommandId {
+				continue
+			}
+			if ok, has := c11success(p); has {
+				if ok {
+					c.outcome = "ok"
+				} else if c.outcome != "ok" {
+					c.outcome = "refused"
+				}
+			}
+		}
+		if c.werr != nil {
+			c.outcome = "write-failed"
+		}
+		pre := ""
+		if !single {
+			pre = how + " "
+		}
+		r.logf("#%s %s%s(%s) %s %s%s target=%s[%s] -> %s, %d keys changed in the window", strings.TrimPrefix(c.cp.CommandId, "c11-"), pre, c.snd.name, r.who(c.snd.id), c.name, c.ptn, c.forged, c11own(c.tgt), c.role, c.outcome, len(changes))
+		ov := ""
+		if !single {
+			ov = "overlap."
+		}
+		w.State(strings.Join([]string{ov + c.name, c.role, c11own(c.tgt), c.forged, c.ptn, c.outcome}, "|"))
+		w.Probe("cell." + ov + c.name + "." + c.role + "." + c.outcome)
+		if (c.role == "unauth" || c.role == "stranger" || c.forged != "") && c.tgt != nil && c.werr == nil {
+			r.nontr = true
+		}
 	}
-	r.logf("#%d %s(%s) %s %s%s target=%s[%s] -> %s, %d keys changed", r.seq, snd.name, r.who(snd.id), name, ptn, forged, own, role, outcome, len(changes))
-	w.State(strings.Join([]string{name, role, c11own(tgt), forged, ptn, outcome}, "|"))
-	w.Probe("cell." + name + "." + role + "." + outcome)
-	if (role == "unauth" || role == "stranger" || forged != "") && tgt != nil && werr == nil {
-		r.nontr = true
-	}
+	// bookkeeping of the model (permitted effects), whatever the verdict
+	defer func() {
+		for _, c := range cmds {
+			if c.tgt != nil && c.snd.id != 0 && c.outcome == "ok" && c.t == packet.ConnectionCodeActivate {
+				c.tgt.parties[c.snd.id] = true
+			}
+			if c.tgt != nil && c.tgt.parties[c.snd.id] && c.outcome == "ok" && (c.t == packet.MappingDelete || c.t == packet.HTTPDomainDelete) {
+				c.tgt.gone = true
+			}
+		}
+	}()
 	detail := func() string {
 		var cs []string
 		for _, ch := range changes {
 			cs = append(cs, fmt.Sprintf("  %s %s -> %v", ch.how, ch.key, ch.names))
 		}
-		var others []string
+		var reqs, ins []string
+		for _, c := range cmds {
+			reqs = append(reqs, fmt.Sprintf("  %s (identity proven on that transport: %s) sent type=%s cmd=%s id=%s SenderId=%q ReceiverId=%q Token=%q body=%s", c.snd.name, r.who(c.snd.id), c.ptn, c.name, c.cp.CommandId, c.cp.SenderId, c.cp.ReceiverId, c.cp.Token, c.cp.CommandBody))
+		}
 		for _, cc := range r.conns {
-			if cc != snd && len(cc.inbox) > 0 {
-				others = append(others, fmt.Sprintf("  to %s(%s): %s", cc.name, r.who(cc.id), strings.TrimSpace(c11text(cc.inbox))))
+			if len(cc.inbox) > 0 {
+				ins = append(ins, fmt.Sprintf("  to %s(%s): %s", cc.name, r.who(cc.id), strings.TrimSpace(c11text(cc.inbox))))
 			}
 		}
-		return fmt.Sprintf("sender %s, identity proven on that transport: %s; request type=%s cmd=%s SenderId=%q ReceiverId=%q Token=%q body=%s\nreplies to sender:\n%s\nstore changes:\n%s\npackets to other transports:\n%s\nhistory:\n%s",
-			snd.name, r.who(snd.id), ptn, name, cp.SenderId, cp.ReceiverId, cp.Token, cp.CommandBody, c11text(replies), strings.Join(cs, "\n"), strings.Join(others, "\n"), strings.Join(r.hist, "\n"))
+		return fmt.Sprintf("%s\nrequests:\n%s\nstore changes:\n%s\npackets received per transport:\n%s\nhistory:\n%s",
+			how, strings.Join(reqs, "\n"), strings.Join(cs, "\n"), strings.Join(ins, "\n"), strings.Join(r.hist, "\n"))
 	}
-	cls := role // whether identity fields were forged is in the detail, not in the class
+	// the command a store change belongs to: the one whose own data it carries, else the first
+	culprit := func(text string) *c11sent {
+		for _, c := range cmds {
+			for _, m := range c.markers {
+				if c11has(text, m) {
+					return c
+				}
+			}
+		}
+		return cmds[0]
+	}
+	sigName := func(c *c11sent) string {
+		if single {
+			return c.name
+		}
+		return c.name + ":overlapped"
+	}
+	// what a transport receives in an overlapped window is judged as a class of its own: which of the
+	// two commands' names the wrong answer carries says nothing about the kind of failure
+	rcvName := func(c *c11sent) string {
+		if single {
+			return c.name
+		}
+		return "overlapped"
+	}
 
-	// (1)/(2) state: every changed key that belongs to somebody must belong to the sender
+	// (1)/(2) state: every changed key that belongs to somebody must belong to a sender of the window;
+	// a record that carries one command's own data must be recorded as that command's connection identity
 	unowned := 0
 	for _, ch := range changes {
+		for _, c := range cmds {
+			mine := false
+			for _, m := range c.markers {
+				if c11has(ch.text, m) {
+					mine = true
+				}
+			}
+			if mine && len(ch.clients) > 0 && !ch.clients[c.snd.id] {
+				w.Violationf("C11:misattributed-record:"+sigName(c), "the record %s carries data supplied by %s's command %s but names client(s) %v and not the identity of the connection the command arrived on (%s)\n%s", ch.key, c.snd.name, c.cp.CommandId, ch.names, r.who(c.snd.id), detail())
+				return
+			}
+		}
 		if len(ch.parties) == 0 {
 			unowned++
 			continue
 		}
-		if snd.id == 0 {
-			w.Violationf("C11:unauth:client-state-changed:"+name, "a command from an unauthenticated connection changed client-owned state (%s %s, belongs to %v)\n%s", ch.how, ch.key, ch.names, detail())
-			return
+		ok := false
+		for _, c := range cmds {
+			if c.snd.id != 0 && ch.parties[c.snd.id] {
+				ok = true
+			}
 		}
-		if !ch.parties[snd.id] {
-			w.Violationf("C11:foreign-state-changed:"+name+":"+cls, "the command changed state of objects the connection's identity %s is no party to (%s %s, belongs to %v)\n%s", r.who(snd.id), ch.how, ch.key, ch.names, detail())
-			return
-		}
-	}
-	if snd.id == 0 && unowned > 0 {
-		w.Probe("unauth.unowned-state-changed." + name)
-	}
-
-	// (3) disclosure: nothing that belongs to objects the sender is no party to may come back,
-	// unless the sender sent it itself
-	rt := c11text(replies)
-	for _, o := range r.objs {
-		if snd.id != 0 && o.parties[snd.id] || holds(o) {
+		if ok {
 			continue
 		}
-		for _, id := range o.idents {
-			if c11has(rt, id) && !c11has(reqText, id) {
-				if snd.id == 0 {
-					w.Violationf("C11:unauth:disclosed:"+name, "the reply to an unauthenticated connection contains %q of %s\n%s", id, o.name, detail())
-				} else {
-					w.Violationf("C11:disclosed:"+name+":"+cls, "the reply to %s contains %q of %s, to which it is no party\n%s", r.who(snd.id), id, o.name, detail())
-				}
+		c := culprit(ch.text)
+		if allUnauth {
+			w.Violationf("C11:unauth:client-state-changed:"+sigName(c), "a command from an unauthenticated connection changed client-owned state (%s %s, belongs to %v)\n%s", ch.how, ch.key, ch.names, detail())
+		} else {
+			w.Violationf("C11:foreign-state-changed:"+sigName(c)+":"+c.role, "the command changed state of objects the sending connection's identity is no party to (%s %s, belongs to %v)\n%s", ch.how, ch.key, ch.names, detail())
+		}
+		return
+	}
+	if allUnauth && unowned > 0 {
+		w.Probe("unauth.unowned-state-changed." + cmds[0].name)
+	}
+
+	// (3) what each sending transport received
+	for _, c := range cmds {
+		cc := c.snd
+		rt := c11text(cc.inbox)
+		// answers and data of another connection's command must not arrive here
+		for _, p := range cc.inbox {
+			if p.CommandPacket == nil || !p.PacketType.IsCommandResp() {
+				continue
+			}
+			if o := byID[p.CommandPacket.CommandId]; o != nil && o.snd != cc {
+				w.Violationf("C11:reply-misrouted:"+rcvName(o), "the answer to %s's command %s was delivered to %s(%s)\n%s", o.snd.name, o.cp.CommandId, cc.name, r.who(cc.id), detail())
 				return
 			}
 		}
+		for _, o := range cmds {
+			if o.snd == cc {
+				continue
+			}
+			for _, m := range o.markers {
+				if c11has(rt, m) && !c11has(c.reqText, m) && !r.visibleTo(after, m, cc.id) {
+					w.Violationf("C11:reply-misrouted:"+rcvName(o), "%s(%s) received %q, data of the command %s sent on transport %s\n%s", cc.name, r.who(cc.id), m, o.cp.CommandId, o.snd.name, detail())
+					return
+				}
+			}
+		}
+		// disclosure: nothing that belongs to objects the receiver is no party to may come back,
+		// unless the receiver sent it itself
+		for _, o := range r.objs {
+			if cc.id != 0 && o.parties[cc.id] || c.holdsFn(o) {
+				continue
+			}
+			for _, id := range o.idents {
+				if c11has(rt, id) && !c11has(c.reqText, id) {
+					if cc.id == 0 {
+						w.Violationf("C11:unauth:disclosed:"+rcvName(c), "an unauthenticated connection received %q of %s\n%s", id, o.name, detail())
+					} else {
+						w.Violationf("C11:disclosed:"+rcvName(c)+":"+c.role, "%s received %q of %s, to which it is no party\n%s", r.who(cc.id), id, o.name, detail())
+					}
+					return
+				}
+			}
+		}
+		// (1) unauthenticated: refused
+		if cc.id == 0 && c.outcome == "ok" && !c11public[c.t] {
+			w.Violationf("C11:unauth:served:"+rcvName(c), "the command was answered with success on a connection that never authenticated\n%s", detail())
+			return
+		}
 	}
 
-	// (1) unauthenticated: refused
-	if snd.id == 0 && outcome == "ok" && !c11public[t] {
-		w.Violationf("C11:unauth:served:"+name, "the command was answered with success on a connection that never authenticated\n%s", detail())
-		return
-	}
-
-	// (4) other transports
+	// (4) transports that sent nothing in this window
+	first := cmds[0]
 	for _, cc := range r.conns {
-		if cc == snd || len(cc.inbox) == 0 {
+		if sender[cc] != nil || len(cc.inbox) == 0 {
 			continue
 		}
-		if snd.id == 0 {
-			w.Violationf("C11:unauth:packet-delivered:"+name, "a command from an unauthenticated connection made the server send a packet to %s(%s)\n%s", cc.name, r.who(cc.id), detail())
+		if allUnauth {
+			w.Violationf("C11:unauth:packet-delivered:"+sigName(first), "a command from an unauthenticated connection made the server send a packet to %s(%s)\n%s", cc.name, r.who(cc.id), detail())
 			return
 		}
 		for _, p := range cc.inbox {
-			if p.CommandPacket != nil && p.CommandPacket.SenderId != "" && p.CommandPacket.SenderId != strconv.FormatInt(snd.id, 10) {
-				w.Violationf("C11:reach:forged-sender-delivered:"+name, "the packet delivered to %s names sender %q, the connection's identity is %s\n%s", cc.name, p.CommandPacket.SenderId, r.who(snd.id), detail())
+			if p.CommandPacket == nil || p.CommandPacket.SenderId == "" {
+				continue
+			}
+			ok := false
+			for _, c := range cmds {
+				if c.snd.id != 0 && p.CommandPacket.SenderId == strconv.FormatInt(c.snd.id, 10) {
+					ok = true
+				}
+			}
+			if !ok {
+				w.Violationf("C11:reach:forged-sender-delivered:"+sigName(first), "the packet delivered to %s names sender %q, which is not the identity of the sending connection\n%s", cc.name, p.CommandPacket.SenderId, detail())
 				return
 			}
 		}
@@ -992,30 +1232,53 @@ func (r *c11run) command(s *c11step, snd *c11conn, t packet.CommandType) {
 				continue
 			}
 			for _, id := range o.idents {
-				if c11has(ot, id) && !c11has(reqText, id) {
-					w.Violationf("C11:reach:disclosed-to-receiver:"+name, "the packet delivered to %s(%s) contains %q of %s, to which the receiver is no party\n%s", cc.name, r.who(cc.id), id, o.name, detail())
+				sent := false
+				for _, c := range cmds {
+					if c11has(c.reqText, id) {
+						sent = true
+					}
+				}
+				if c11has(ot, id) && !sent {
+					w.Violationf("C11:reach:disclosed-to-receiver:"+sigName(first), "the packet delivered to %s(%s) contains %q of %s, to which the receiver is no party\n%s", cc.name, r.who(cc.id), id, o.name, detail())
 					return
 				}
 			}
 		}
 		if cc.id == 0 {
-			w.Violationf("C11:reach:delivered-to-unauth:"+name, "the server sent a packet to the unauthenticated transport %s\n%s", cc.name, detail())
+			w.Violationf("C11:reach:delivered-to-unauth:"+sigName(first), "the server sent a packet to the unauthenticated transport %s\n%s", cc.name, detail())
 			return
 		}
-		if c11FlagUnrelatedReach && cc.id != snd.id && !r.related(snd.id, cc.id) {
-			w.Violationf("C11:reach:unrelated-client:"+name, "%s made the server send a packet to %s although the two share no mapping\n%s", r.who(snd.id), r.who(cc.id), detail())
-			return
+		if c11FlagUnrelatedReach {
+			rel := false
+			for _, c := range cmds {
+				if c.snd.id != 0 && (c.snd.id == cc.id || r.related(c.snd.id, cc.id)) {
+					rel = true
+				}
+			}
+			if !rel {
+				w.Violationf("C11:reach:unrelated-client:"+sigName(first), "the server sent a packet to %s although no sender shares a mapping with it\n%s", r.who(cc.id), detail())
+				return
+			}
 		}
-		w.Probe("reach.delivered." + name)
+		w.Probe("reach.delivered." + first.name)
 	}
 
-	// bookkeeping of the model
-	if tgt != nil && snd.id != 0 && outcome == "ok" && t == packet.ConnectionCodeActivate {
-		tgt.parties[snd.id] = true
+}
+
+// visibleTo reports whether some stored record carries the string m and names
+// client id as well: data another client supplied may legitimately be shown to a
+// party of the record it ended up in.
+func (r *c11run) visibleTo(snap *c11snap, m string, id int64) bool {
+	if id == 0 {
+		return false
 	}
-	if tgt != nil && tgt.parties[snd.id] && outcome == "ok" && (t == packet.MappingDelete || t == packet.HTTPDomainDelete) {
-		tgt.gone = true
+	ids := strconv.FormatInt(id, 10)
+	for k, v := range snap.vals {
+		if t := k + " " + v; c11has(t, m) && c11has(t, ids) {
+			return true
+		}
 	}
+	return false
 }
 
 func c11own(o *c11obj) string {
